@@ -194,8 +194,8 @@ Fixpoint sflow_args (args : list tok) (filter : list Z) : bytes :=
   | TInt z :: rest => sflow_args rest (filter ++ [z])
   | TBytes p :: _ =>
       match g_sf_decode filter p with
-      | Ok None => s2l "NONE"
-      | Ok (Some j) => render j
+      | Ok (_, None) => s2l "NONE"
+      | Ok (_, Some j) => render j
       | Err _ => s2l "ERR?"
       | Panic => s2l "PANIC"
       | Hang => s2l "HANG"
@@ -343,6 +343,66 @@ Definition cmd_options (args : list tok) : bytes :=
   let final := eval Gen.Options.stages s in
   intercalate (s2l ";") (map (fun p => s2l (snd p) ++ s2l "=" ++ show_bytes (final (snd p))) (reg_pairs Gen.Options.stages)).
 
+(* ---------- worker pipelines (C12, C13) ---------- *)
+(* what the worker of each protocol does with ONE datagram, sequentially: (cache', published payload?, counted as decoded?) *)
+Definition worker_ipfix (c : ccache) (addr p : bytes) : ccache * option bytes * bool :=
+  match g_ipfix_decode cc_ops c addr p with
+  | Ok (c', DMsg m _) => (c', match i_sets m with [] => None | _ => Some (g_ipfix_marshal m) end, true)
+  | Ok (c', DFail) => (c', None, false)
+  | _ => (c, None, false)
+  end.
+Definition worker_nf9 (c : ccache) (addr p : bytes) : ccache * option bytes * bool :=
+  match g_nf9_decode cc_ops c addr p with
+  | Ok (c', DMsg m _) => (c', match n9_sets m with [] => None | _ => Some (g_nf9_marshal m) end, true)
+  | Ok (c', DFail) => (c', None, false)
+  | _ => (c, None, false)
+  end.
+Definition worker_nf5 (addr p : bytes) : option bytes * bool :=
+  match g_nf5_decode addr p with
+  | Ok (m, _) => (match n5_flows m with [] => None | _ => Some (g_nf5_marshal m) end, true)
+  | _ => (None, false)
+  end.
+(* sFlow: counted as decoded when SFDecode returns without error *)
+Definition worker_sflow (filter : list Z) (p : bytes) : option bytes * bool :=
+  match g_sf_decode filter p with
+  | Ok (ok, Some j) => (Some (render j), ok)
+  | Ok (ok, None) => (None, ok)
+  | _ => (None, false)
+  end.
+
+Definition show_pub (x : option bytes * bool) : bytes :=
+  (match fst x with Some b => show_bytes b | None => s2l "-" end) ++ (if snd x then s2l "/D1" else s2l "/D0").
+
+Fixpoint pipe_flow (ipfix : bool) (c : ccache) (args : list tok) : list bytes :=
+  match args with
+  | TBytes a :: TBytes p :: rest =>
+      let '(c', pub, dec) := if ipfix then worker_ipfix c a p else worker_nf9 c a p in
+      show_pub (pub, dec) :: pipe_flow ipfix c' rest
+  | _ => []
+  end.
+Fixpoint pipe_stateless (f : bytes -> bytes -> option bytes * bool) (args : list tok) : list bytes :=
+  match args with
+  | TBytes a :: TBytes p :: rest => show_pub (f a p) :: pipe_stateless f rest
+  | _ => []
+  end.
+Fixpoint ints_of (ts : list tok) : list Z := match ts with TInt z :: r => z :: ints_of r | _ => [] end.
+
+(* pipe <proto> F <filter ints> P <pre pairs> G <datagram pairs>
+   -> per datagram of G, in order: x<published payload> or -, then /D1 (counted as decoded) or /D0 *)
+Definition cmd_pipe (args : list tok) : bytes :=
+  match args with
+  | proto :: rest =>
+    let '(_, r0) := split_at_sym "F" rest in
+    let '(fl, r1) := split_at_sym "P" r0 in
+    let '(pre, g) := split_at_sym "G" r1 in
+    intercalate sp
+      (if sym_is proto "ipfix" then pipe_flow true (cache_after_ipfix empty_ccache pre) g
+       else if sym_is proto "nf9" then pipe_flow false (cache_after_nf9 empty_ccache pre) g
+       else if sym_is proto "nf5" then pipe_stateless worker_nf5 g
+       else pipe_stateless (fun _ p => worker_sflow (ints_of fl) p) g)
+  | _ => s2l "BADARGS"
+  end.
+
 Definition dispatch (cmd : bytes) (args : list tok) : bytes :=
   if list_eqb cmd (s2l "reader") then cmd_reader args
   else if list_eqb cmd (s2l "infomodel") then cmd_infomodel args
@@ -355,5 +415,6 @@ Definition dispatch (cmd : bytes) (args : list tok) : bytes :=
   else if list_eqb cmd (s2l "cachert") then cmd_cachert args
   else if list_eqb cmd (s2l "cachebytes") then s2l "SKIP"
   else if list_eqb cmd (s2l "options") then cmd_options args
+  else if list_eqb cmd (s2l "pipe") then cmd_pipe args
   else if list_eqb cmd (s2l "nf9h-abs") then cmd_nf9h_abs args
   else s2l "UNKNOWN-COMMAND".
